@@ -14,7 +14,7 @@ def add_shell(chk, kind, fields, tag="", meta=None):
 def judge_shell(chk):
     """requests whose answer is OK / ERR <what differs>: ERR is a failing input"""
     for cid, case in list(chk.cases.items()):
-        if case["kind"] not in ("ARCH", "CLI", "CONV", "EQV", "LIBR"):
+        if case["kind"] not in ("ARCH", "CLI", "CONV", "EQV", "LIBR", "SLICEB"):
             continue
         impl = chk.results.get(cid, {}).get("impl")
         if impl is None:
@@ -49,7 +49,44 @@ def gen_C20(chk):
                         tag="slice", meta={"net": net, "netname": nm, "k": k, "fs": fs})
 
 
+def gated_modules(m):
+    """m independent AND gates  v_i = a_i & b_i  whose 2m inputs have no update function:
+    3m variables, 2^(2m) colours (more (state, colour) pairs than a double can count)"""
+    return "".join("m%02d_a -> m%02d_v\nm%02d_b -> m%02d_v\n$m%02d_v: m%02d_a & m%02d_b\n" % ((i,) * 7)
+                   for i in range(1, m + 1))
+
+
+def gen_C20_big(chk):
+    """the slice relation on networks with many colours, by BDD operations (SLICEB)"""
+    rng = chk.rng
+    # bundled parametrised model and the gated-modules family
+    nets = []
+    import os
+    for nm in ["model-010-13var-2in.aeon"] + (["model-022-17var-5in.aeon"] if thorough(chk) else []):
+        pth = os.path.join("/repo/test", nm)
+        if os.path.exists(pth):
+            nets.append((nm, open(pth).read()))
+    for m in ([9, 15] if not thorough(chk) else [9, 12, 15, 18]):
+        nets.append(("gated%d" % m, gated_modules(m)))
+    for nm, net in nets:
+        props = net_props(net)
+        if nm.startswith("gated"):
+            allv = " & ".join(props)
+            some = " & ".join(p for p in props if p.endswith("_v"))
+            a = rng.choice(props)
+            fs = ["AF (%s)" % allv, "EG ~(%s)" % allv, "EF (%s)" % some, "AG ~(%s)" % some,
+                  "(%s) AU (%s)" % (rng.choice(props), some), "(~(%s)) EW (%s)" % (allv, a), "(%s) AW (%s)" % (a, some),
+                  "AF (!{x}: AX {x})"]
+        else:
+            a, b, c = rng.sample(props, 3)
+            fs = ["AF (%s | ~%s)" % (a, b), "EG (%s | %s)" % (a, c), "%s EU (%s & %s)" % (a, b, c), "!{x}: AX {x}",
+                  "AF (!{x}: AX {x})", "(%s) AW (%s)" % (a, b)]
+        add_shell(chk, "SLICEB", ["1", "A:" + gen.hx(net), ",".join(gen.hx(f) for f in fs)], tag="slice-big",
+                  meta={"net": nm})
+
+
 def judge_C20(chk):
+    judge_shell(chk)
     for cid, case in list(chk.cases.items()):
         if case["kind"] != "SLICE":
             continue
@@ -119,6 +156,20 @@ def gen_C16(chk):
                                     ",".join(gen.hx(f) for f in formulas),
                                     ",".join(gen.hx(f) for f in usage)], tag="archive",
                       meta={"net": net, "labels": labels})
+
+
+def gen_C16_big(chk):
+    """archive entries far larger than one decompression chunk: a set whose BDD has thousands of
+    nodes (pairs (a_i, b_i) with all a's ordered before all b's), next to small / empty / full sets"""
+    n = 12 if not thorough(chk) else 13
+    names = ["a%02d" % i for i in range(n)] + ["b%02d" % i for i in range(n)]
+    net = "".join("%s -> %s\n$%s: %s\n" % (v, v, v, v) for v in names)
+    big = " | ".join("(a%02d & b%02d)" % (i, i) for i in range(n))
+    ctx = [("big", "f" + gen.hx(big)), ("small", "f" + gen.hx("a00 & ~b00")), ("none", "e"), ("all", "u")]
+    add_shell(chk, "ARCH", ["0", "A:" + gen.hx(net), ",".join("%s=%s" % (gen.hx(l), sp) for l, sp in ctx),
+                            ",".join(gen.hx(f) for f in [big, "a00"]),
+                            ",".join(gen.hx(f) for f in ["%big% & ~%small%", "%big% | %none%"])],
+              tag="archive-big", meta={"net": "pairs%d" % n, "labels": [l for l, _ in ctx]})
 
 
 # ------------------------------------------------------------------ C17
@@ -345,8 +396,8 @@ def runner(gens, judge):
 
 
 REGISTRY = {
-    "C16": runner([gen_C16, gen_shell_tie_C16], lambda c: (judge_shell(c), judge_model_tie(c))),
+    "C16": runner([gen_C16, gen_C16_big, gen_shell_tie_C16], lambda c: (judge_shell(c), judge_model_tie(c))),
     "C17": runner([gen_C17, gen_shell_tie_C17], lambda c: (judge_shell(c), judge_model_tie(c))),
     "C19": runner([gen_C19, gen_shell_tie_C19], lambda c: (judge_shell(c), judge_model_tie(c))),
-    "C20": runner([gen_C20], judge_C20),
+    "C20": runner([gen_C20, gen_C20_big], judge_C20),
 }
